@@ -48,7 +48,7 @@ def run(ctx):
                 "plus seeded random vectors; non-trivial = the batcher split the vector (distinct (max,vector))")
     ctx.trusted = ["Coq 8.16.1 kernel + vm_compute", "hand-written model Eio/Batcher.v tied by kernel-evaluated correspondence",
                    "harness cmd/vh batch + hook engine.io/client_socket_verif.go"]
-    ctx.proofs()
+    ctx.proofs(modules=["Eio/BatcherCheck"])
     vh = ctx.go_build()
     if vh is None:
         return
